@@ -10,26 +10,37 @@ Definition lam_sum : ast := ELambdaDef [xp] (EFun 80 [EVar [120] None; ENum [49;
 (* =S!$A$1 *)
 Definition ref_a1 : ast := ERef (Some [83]) (Some 0) {| p_row := 1; p_col := 1; p_abs_col := true; p_abs_row := true |}.
 
-(* the proviso fails for a name formula with a function, in every non-English language: the
-   stored text is rewritten (SUM becomes the user function "sum") although no sheet it mentions
-   was renamed *)
-Lemma other_sheet_refuted_language :
-  image en11 (names_of 0) env1 lam_sum = true /\
-  lang_neutral en11 en11 (names_of 0) (names_of 1) lam_sum = false /\
-  name_formula_after_rename en11 (names_of 1) env1 (fun e => e) (print en11 (names_of 0) lam_sum) <> print en11 (names_of 0) lam_sum.
+(* non-vacuity of other_sheet_rename_keeps_formula: a LAMBDA name with a function and a decimal, and a reference name *)
+Lemma other_sheet_premises :
+  image en11 (names_of 0) env1 lam_sum = true /\ no_bad false lam_sum = true /\ lower_stable (names_of 0) lam_sum = true /\
+  image en11 (names_of 0) env1 ref_a1 = true.
+Proof. vm_compute. repeat split. Qed.
+
+(* ---- update_defined_name still re-reads the stored formulas with the ACTIVE language / locale ---- *)
+Definition t_g : text := [71].
+Definition t_h : text := [72].
+Definition f_g : text := [83; 33; 36; 65; 36; 49].                      (* S!$A$1 *)
+Definition env_g : penv := {| pe_sheets := [[83]]; pe_ctx_sheet := [83]; pe_defnames := [(t_g, None, f_g)]; pe_tables := [] |}.
+Definition trim_g : ast := EFun 137 [EDefName t_g None f_g].           (* TRIM(G) *)
+Definition sum_g2 : ast := EFun 80 [EDefName t_g None f_g; ENum [50]].  (* SUM(G,2) *)
+
+(* French (decimal point): the stored text of TRIM(G) is read as MIRR(G): after renaming G to H the
+   cell holds MIRR(H), not TRIM(H) *)
+Lemma name_rename_refuted_language :
+  image (m_rc_of true) (names_of 0) env_g trim_g = true /\
+  formula_after_name_rename true (names_of 3) (names_of 0) env_g lower t_g None t_h (print (m_rc_of true) (names_of 0) trim_g)
+    = print (m_rc_of true) (names_of 0) (EFun 222 [EDefName t_h None f_g]) /\
+  print (m_rc_of true) (names_of 0) (EFun 222 [EDefName t_h None f_g]) <> print (m_rc_of true) (names_of 0) (rename lower t_g None t_h trim_g).
 Proof. repeat split; try (vm_compute; reflexivity). vm_compute. discriminate. Qed.
 
-(* in a comma-decimal locale the active parser rejects the English separators: the text is copied *)
-Lemma other_sheet_comma_locale_copies :
-  lang_neutral en11 (m_display false 1 1) (names_of 0) (names_of 0) lam_sum = false /\
-  name_formula_after_rename (m_display false 1 1) (names_of 0) env1 (fun e => e) (print en11 (names_of 0) lam_sum) = print en11 (names_of 0) lam_sum.
-Proof. split; vm_compute; reflexivity. Qed.
-
-(* non-vacuity of other_sheet_rename_keeps_formula: a reference name in German with a comma locale *)
-Lemma other_sheet_premises :
-  lang_neutral en11 (m_display false 1 1) (names_of 0) (names_of 1) ref_a1 = true /\
-  image (m_display false 1 1) (names_of 1) env1 ref_a1 = true /\ no_bad false ref_a1 = true /\ lower_stable (names_of 1) ref_a1 = true.
-Proof. vm_compute. repeat split. Qed.
+(* a comma-decimal locale (English language): the stored SUM(G,2) does not parse with ';' as the
+   argument separator, the text is copied and still says G — which no longer exists *)
+Lemma name_rename_refuted_locale :
+  image (m_rc_of true) (names_of 0) env_g sum_g2 = true /\
+  formula_after_name_rename false (names_of 0) (names_of 0) env_g lower t_g None t_h (print (m_rc_of true) (names_of 0) sum_g2)
+    = print (m_rc_of true) (names_of 0) sum_g2 /\
+  print (m_rc_of true) (names_of 0) sum_g2 <> print (m_rc_of true) (names_of 0) (rename lower t_g None t_h sum_g2).
+Proof. repeat split; try (vm_compute; reflexivity). vm_compute. discriminate. Qed.
 
 (* non-vacuity of the rename pass: =Name1+SUM(name1,Other) with Name1 -> Renamed *)
 Definition dn (n : text) := EDefName n None [83; 33; 65; 49].
